@@ -16,24 +16,30 @@ DESIGN_REF = "§5 C03, §6 F10"
 TECHNIQUE = ("Coq proof over a byte-level model of the chunk journal (records, CRC as a parameter, valid-prefix scan, data-loss resync, "
              "writer with flush/fsync, prefix-truncation crash model) + regenerated tags/sizes + in-Coq correspondence against the real "
              "journalWriter on damaged images of journals it wrote")
-LEVEL_TEXT = ("Proof (F/M for the scan, P for the writer): scan_prefix — for every 32-bit checksum function, every list of well-formed "
-              "records and every cut point k, scanning the first k bytes returns exactly the longest prefix of whole records, the recovered "
-              "offset is their total length and (under the visible hypothesis that the torn tail embeds no CRC-valid record image, F10) the "
-              "data-loss check is false and processJournalRecords returns that prefix; crash_recovery_partial — for every writer state whose "
-              "file+buffer is the encoding of its records and every crash image of the file, bootstrap succeeds with the root of the last whole "
-              "root record, the declarative range table, and every root record that lies below the crash point (in particular an acknowledged, "
-              "i.e. synced, one) is kept; data_loss_reported — non-validating garbage followed by an intact root record and a further intact "
-              "record (not a final record shorter than 40 bytes) is reported. torn_tail_silent_refuted and short_final_record_missed are the two "
-              "concrete counterexamples to the unconditional statements; both reproduce on the real code. The model is tied to the code by "
-              "driving the real journalWriter and reopening damaged images through openJournalWriter+bootstrapJournal.")
-LEVEL_NOTE = ("Trusted: Coq kernel, translator (tags and sizes), Go harness + Python glue. Modelled, not verified: os.File/bufio (Peek/ReadFull as "
-              "list operations), the sliding window of possibleDataLossCheck (argued transparent: candidate <= bufsz, window 2*bufsz), the file system "
-              "(crash = prefix truncation; fsync itself is not observed by this harness, only that the root record has been handed to the OS when "
-              "commitRootHash returns), snappy (payloads opaque, supplied by the implementation), hash.Of. Not proved: that every state of the writer "
-              "model's trace satisfies the invariant of crash_recovery_partial (exercised by the correspondence: per-op offsets and on-disk sizes); the "
-              "'any subset of un-synced bytes lost' crash variant; the 64 MiB maybe-sync branch is in the model but not exercised by the generator.")
-THEOREMS = ["layout_pinned", "scan_prefix", "fit_prefix_longest", "dlc_no_window", "crash_recovery_partial", "data_loss_reported",
-            "torn_tail_silent_refuted (F10)", "short_final_record_missed"]
+LEVEL_TEXT = ("Proof (F/M): scan_prefix — for every 32-bit checksum function, every list of well-formed records and every cut point k, "
+              "scanning the first k bytes returns exactly the longest prefix of whole records, the recovered offset is their total length and "
+              "(under the visible hypothesis that the torn tail embeds no CRC-valid record image, F10) the data-loss check is false; scan_app — "
+              "the scan is compositional over a run of intact records; crash_recovery — for EVERY op history, EVERY intermediate state of the "
+              "writer model (getBytes/flush, record append + index lookup, root record, flush, Sync, index meta, ack; the intermediate-sync "
+              "commit of large writes included, threshold a parameter) and every crash image between the synced and the written length, "
+              "bootstrap succeeds, the root record of the last acknowledged commit and everything before it is recovered, the recovered root is "
+              "that root or one in flight, and the range table is the declarative one; crash_recovery_unsynced_lost — the synced part is a run of "
+              "whole records containing the acknowledged root record, and with everything after it replaced by arbitrary bytes the scan yields "
+              "those records first (exactly those when the junk validates nowhere); index_stream_covers — in every writer state the index "
+              "lookups are exactly the chunk records' own ranges in order and every index meta ends at a root record with all chunk records below "
+              "it looked up before the meta; data_loss_reported — non-validating garbage followed by an intact root record and a further intact "
+              "record (not a final record shorter than 40 bytes) is reported. torn_tail_silent_refuted (F10) and short_final_record_missed are the "
+              "two counterexamples to the unconditional statements; both reproduce on the real code. The model is tied to the code by driving "
+              "the real journalWriter (journal bytes, per-op offsets and on-disk sizes, index file bytes) and reopening damaged images.")
+LEVEL_NOTE = ("Trusted: Coq kernel, translator (tags, sizes, rootHashRecordSize), Go harness + Python glue. Modelled, not verified: os.File/bufio "
+              "(Peek/ReadFull as list operations), the sliding window of possibleDataLossCheck (argued transparent: candidate <= bufsz, window "
+              "2*bufsz), the file system (crash = the synced prefix survives, of the rest a prefix or arbitrary bytes; fsync itself is not observed "
+              "by this harness, only that the root record has been handed to the OS when commitRootHash returns), snappy (payloads opaque, supplied "
+              "by the implementation), hash.Of. journalMaybeSyncThreshold is a Go constant: the intermediate-sync path is proved in the model "
+              "(threshold a parameter) and exercised on the real code by one 72 MiB run whose journal and index are checked on the Go side with "
+              "the real parsers (the model cannot evaluate 72 MiB inside Coq).")
+THEOREMS = ["layout_pinned", "scan_prefix", "scan_app", "fit_prefix_longest", "dlc_no_window", "crash_recovery", "crash_recovery_unsynced_lost",
+            "crash_recovery_partial", "index_stream_covers", "data_loss_reported", "torn_tail_silent_refuted (F10)", "short_final_record_missed"]
 REFUTED = ["torn_tail_silent (every truncation is discarded silently, without the no-embedded-record hypothesis): torn_tail_silent_refuted",
            "data_loss_reported without the 40-byte side condition: short_final_record_missed"]
 RULE = ("a case = op history (chunk writes compressed by the real code, raw chunk records incl. duplicates and bad chunk checksums, root commits; "
@@ -42,7 +48,7 @@ RULE = ("a case = op history (chunk writes compressed by the real code, raw chun
         "recovered or a damaged tail discarded; distinct by op list and damage list")
 ASSUMPTIONS = ["random garbage does not validate under CRC-32C (probability 2^-32 per window)",
                "distinct chunk addresses differ in their first 16 bytes"]
-REQUIRED_TAGS = ["short-final-record-missed", "trunc-mid-record", "trunc-boundary", "trunc-lt4-tail", "zero-tail", "garbage-tail", "dataloss-reported", "lone-root-after-damage",
+REQUIRED_TAGS = ["big-intermediate-sync", "index-meta-written", "short-final-record-missed", "trunc-mid-record", "trunc-boundary", "trunc-lt4-tail", "zero-tail", "garbage-tail", "dataloss-reported", "lone-root-after-damage",
                  "xor-damage", "small-buffer", "op-too-big", "ro-open", "rw-truncated", "root-recovered", "chunk-recovered", "dup-addr", "bad-chunk-crc",
                  "f10-witness"]
 
@@ -226,8 +232,14 @@ def short_final_case(rng):
     return {"bufsz": 0, "maxnovel": 16384, "ops": ops, "muts": muts, "tagshort": True}
 
 
+def big_case():
+    """72 MiB of chunk records after one commit: crosses journalMaybeSyncThreshold (a Go constant), so writeCompressedChunk
+    commits the current root by itself and flushes an index meta.  Checked on the Go side with the real parsers."""
+    return {"bufsz": 0, "maxnovel": 2, "ops": [], "muts": [], "big": 72}
+
+
 def gen_cases(rng, tier):
-    cases = [f10_case(rng, True), f10_case(rng, False), lone_root_case(rng), short_final_case(rng)]
+    cases = [f10_case(rng, True), f10_case(rng, False), lone_root_case(rng), short_final_case(rng), big_case()]
     n = 26 if tier == "quick" else 400
     for i in range(n):
         small = rng.random() < 0.3
@@ -273,8 +285,9 @@ def _res(r):
                cq_bool(r["unchanged"]), cq_bool(r["idxexists"])))
 
 
-BAD = ("({| i_poly := 0; i_bufsz := 0; i_maxnovel := 0; i_ops := []; i_known := []; i_muts := [] |}, "
-       "{| o_ops := []; o_journal := [9]; o_rootsz := 0; o_recok := false; o_fn_off := 9; o_fn_n := 9; o_fn_dl := true; o_res := [] |})")
+BAD = ("({| i_poly := 0; i_bufsz := 0; i_maxnovel := 0; i_ops := []; i_known := []; i_muts := []; i_big := false |}, "
+       "{| o_ops := []; o_journal := [9]; o_rootsz := 0; o_recok := false; o_fn_off := 9; o_fn_n := 9; o_fn_dl := true; o_res := []; "
+       "o_index := [9]; o_big := 2 |})")
 
 
 def coq_case(case, out):
@@ -292,12 +305,15 @@ def coq_case(case, out):
     cm = list(case["muts"]) + [None] * (len(o["muts"]) - len(case["muts"]))
     muts = ["(%s, %s)" % (_mut_term(c, m), cq_bool(m["ro"])) for c, m in zip(cm, o["muts"])]
     maxnovel = case.get("maxnovel") or 16384
-    inp = "{| i_poly := %d; i_bufsz := %d; i_maxnovel := %d; i_ops := %s; i_known := %s; i_muts := %s |}" % (
-        o["poly"], o["bufsz"], maxnovel, cq_list(ops), cq_list(cq_bytes(k) for k in o["known"]), cq_list(muts))
-    obs = ("{| o_ops := %s; o_journal := %s; o_rootsz := %d; o_recok := %s; o_fn_off := %d; o_fn_n := %d; o_fn_dl := %s; o_res := %s |}" % (
+    big = o.get("big") or {}
+    bigcode = 0 if not big.get("ran") else (1 if big["idxinv"] and big["endisroot"] else 2)
+    inp = "{| i_poly := %d; i_bufsz := %d; i_maxnovel := %d; i_ops := %s; i_known := %s; i_muts := %s; i_big := %s |}" % (
+        o["poly"], o["bufsz"], maxnovel, cq_list(ops), cq_list(cq_bytes(k) for k in o["known"]), cq_list(muts), cq_bool(bool(case.get("big"))))
+    obs = ("{| o_ops := %s; o_journal := %s; o_rootsz := %d; o_recok := %s; o_fn_off := %d; o_fn_n := %d; o_fn_dl := %s; o_res := %s; "
+           "o_index := %s; o_big := %d |}" % (
         cq_list("{| oo_ok := %s; oo_end := %d; oo_disk := %d |}" % (cq_bool(not x["err"]), x["end"], x["diskafter"]) for x in o["ops"]),
         cq_bytes(o["journal"]), o["rootsz"], cq_bool(o["fn"]["recordsok"]), o["fn"]["procoff"], o["fn"]["procrecs"],
-        cq_bool(o["fn"]["dataloss"]), cq_list(_res(m["res"]) for m in o["muts"])))
+        cq_bool(o["fn"]["dataloss"]), cq_list(_res(m["res"]) for m in o["muts"]), cq_bytes(o.get("index") or []), bigcode))
     return "(%s, %s)" % (inp, obs)
 
 
@@ -332,11 +348,31 @@ def embeds_root_then_record(bs, bufsz=5 * 1024 * 1024):
     return False
 
 
+def _count_metas(idx):
+    q = n = 0
+    while q < len(idx):
+        if idx[q] == 0:
+            q += 29
+        elif idx[q] == 1:
+            n += 1
+            q += 41
+        else:
+            break
+    return n
+
+
 def classify(case, out):
     o = out.get("obs")
     if o is None:
         return ["panic" if out.get("panic") else "harness-error"]
     t = set()
+    big = o.get("big") or {}
+    if big.get("ran"):
+        if big["autoroots"] >= 1 and big["batches"] >= 1:
+            t.add("big-intermediate-sync")
+        return sorted(t)
+    if _count_metas(o.get("index") or []) >= 1:
+        t.add("index-meta-written")
     b = _bounds(o)
     if o["bufsz"] < 1024:
         t.add("small-buffer")
@@ -402,7 +438,7 @@ def ApplyLen(o, m):
 
 def nontrivial(case, out):
     o = out.get("obs")
-    return bool(o) and len(o["journal"]) > 0 and len(o["muts"]) > 0
+    return bool(o) and ((len(o["journal"]) > 0 and len(o["muts"]) > 0) or bool((o.get("big") or {}).get("ran")))
 
 
 def shrink_candidates(case):
